@@ -75,6 +75,31 @@ theorem pieceLength_pos {v : PyVal} (h : isDivisibleBy16KiB v = true) :
     · omega
     · simpa using h
 
+/-! ### one answer of the OS -/
+
+/-- `exists` → `isfile` → `real_size` on one `stat` answer: the size of a regular file, and
+    MetainfoError for every other answer — a directory, a FIFO or socket, every errno, a path
+    that never reaches the OS.  In particular `real_size` never fails here and never walks. -/
+theorem statSize_cases (st : Stat) :
+    (∃ n, st = .file n ∧ statSize st = .ok n) ∨
+    (st.isFile = false ∧ statSize st = .error .metainfo) := by
+  cases st <;> simp [statSize, Stat.exists, Stat.isFile, realSize, bind, Except.bind, pure, Except.pure,
+    throw, throwThe, MonadExceptOf.throw]
+
+theorem checkRootFile_cases (fs : FsOracle) (len : Int) :
+    (checkRootFile fs len = .ok () ∧ fs.root = .file len.toNat ∧ 0 ≤ len) ∨
+    checkRootFile fs len = .error .metainfo := by
+  unfold checkRootFile
+  cases h : fs.root with
+  | file n =>
+    by_cases hn : (n : Int) = len
+    · left; subst hn
+      simp [Stat.isFile, realSize, bind, Except.bind, pure, Except.pure]
+    · right
+      simp [Stat.isFile, realSize, bind, Except.bind, pure, Except.pure, hn, throw, throwThe,
+        MonadExceptOf.throw]
+  | _ => right; simp [Stat.isFile, bind, Except.bind, throw, throwThe, MonadExceptOf.throw]
+
 /-- what the single-file branch establishes -/
 def SingleFacts (info : Items) (plen : Nat) : Prop :=
   ∃ l len pv, PyVal.lookupStr "length" info = some l ∧ isIntOrFloat l = true ∧
@@ -120,11 +145,9 @@ theorem checkSingle_cases {items info : Items} (cf : CommonFacts urlOk items inf
         · intro e h
           simp only [hc, ne_eq, not_true_eq_false, if_false, pure, Except.pure] at h
           split at h
-          · split at h
-            · simpa [throw, throwThe, MonadExceptOf.throw, eq_comm] using h
-            · split at h
-              · simpa [throw, throwThe, MonadExceptOf.throw, eq_comm] using h
-              · exact absurd h (by simp)
+          · rcases checkRootFile_cases fs len with ⟨hk, _⟩ | hk
+            · rw [hk] at h; exact absurd h (by simp)
+            · rw [hk] at h; simpa [eq_comm] using h
           · exact absurd h (by simp)
       · simp only [hc, ne_eq, not_false_eq_true, if_true]
         refine ⟨fun h => absurd h (by simp [throw, throwThe, MonadExceptOf.throw]), fun e h => ?_⟩
